@@ -42,7 +42,7 @@ func bfsUniverse(tier string) (*pool.Universe, pool.Gen, int) {
 		{Name: "b0", Sender: 0, Off: 0, Data: "b", Signed: true},
 		{Name: "a1", Sender: 0, Off: 1, Data: "a", Signed: true},
 		{Name: "a2", Sender: 0, Off: 2, Data: "a", Signed: true},
-		{Name: "r", Sender: 0, Off: 7, Rid: 7, Data: "r", Signed: true},
+		{Name: "r", Sender: 0, Off: 7, Rid: 7, Gate: 11, Data: "r", Signed: true}, // gateway shape (runWrite): RequestId + one sub-transaction with the gate nonce
 		{Name: "d", Sender: 0, Rid: 9, DupOf: 3},
 	}
 	if tier == "thorough" {
